@@ -351,6 +351,30 @@ def rowRequest (st : St) (user : Name) (admin : Bool) (idp : Act) (op : RowOp) (
     else if restricted && !admin && !(authorized st user admin user dsn table [op.perm]) then .forbidden
     else .pass
 
+/-! ### the HTTP form of a row request: row format and the route's `?user=` parameter (rows.go, rowsAbstract.go) -/
+
+/-- the `user` argument that rows.go hands to the Authorized call of the handler that serves the request.
+    ReadRows / InsertRows / UpdateRows: `if useAbstract(r) { return XAbstractRows(session.User, session.Admin, …) }`
+    (`?abstract=true` or `Accept: application/vnd.ego.rows.abstract+json`), and XAbstractRows passes its `user`
+    on to `Authorized(session, user, dsn, table, perm)`; the default format and DeleteRows (which has no abstract
+    form) call `Authorized(session, session.User, …)`.  Neither the row format nor `?user=` enters. -/
+def rowAuthUser (sessionUser : Name) (_op : RowOp) (_abstract : Bool) (_quser : Option Name) : Name := sessionUser
+
+/-- a row handler whose table-grant lookup is made for `authUser`; the DSN-level check (GetDatabase(session, …),
+    database/open.go) is always made for the session's user -/
+def rowRequestAs (st : St) (user : Name) (admin : Bool) (idp : Act) (op : RowOp) (authUser dsn table : Name) : Status :=
+  match readDSN st dsn with
+  | none => .noDSN
+  | some restricted =>
+    if !admin && !(identityAuthorizes idp op.action) && !(authDSN st user dsn op.action) then .forbidden
+    else if restricted && !admin && !(authorized st user admin authUser dsn table [op.perm]) then .forbidden
+    else .pass
+
+/-- the row request as it arrives: session (user, admin, identity permissions), operation, row format, `?user=` -/
+def rowRequestHTTP (st : St) (user : Name) (admin : Bool) (idp : Act) (op : RowOp) (abstract : Bool)
+    (quser : Option Name) (dsn table : Name) : Status :=
+  rowRequestAs st user admin idp op (rowAuthUser user op abstract quser) dsn table
+
 /-! ### histories -/
 
 inductive Op where
@@ -509,6 +533,25 @@ def dbRowRequest (s : DSt) (user : Name) (admin : Bool) (idp : Act) (op : RowOp)
       let r3 := dbAuthorized r2.1 user admin user dsn table [op.perm]
       (r3.1, if r3.2 then .pass else .forbidden)
     else (r2.1, .pass)
+
+/-- `dbRowRequest` with the table-grant lookup made for `authUser` (see `rowRequestAs`) -/
+def dbRowRequestAs (s : DSt) (user : Name) (admin : Bool) (idp : Act) (op : RowOp) (authUser dsn table : Name) : DSt × Status :=
+  let r1 := dbReadDSN s dsn
+  match r1.2 with
+  | none => (r1.1, .noDSN)
+  | some restricted =>
+    let r2 : DSt × Bool :=
+      if !admin && !(identityAuthorizes idp op.action) then dbAuthDSN r1.1 user dsn op.action else (r1.1, true)
+    if !r2.2 then (r2.1, .forbidden)
+    else if restricted && !admin then
+      let r3 := dbAuthorized r2.1 user admin authUser dsn table [op.perm]
+      (r3.1, if r3.2 then .pass else .forbidden)
+    else (r2.1, .pass)
+
+/-- the row request as it arrives, database DSN service -/
+def dbRowRequestHTTP (s : DSt) (user : Name) (admin : Bool) (idp : Act) (op : RowOp) (abstract : Bool)
+    (quser : Option Name) (dsn table : Name) : DSt × Status :=
+  dbRowRequestAs s user admin idp op (rowAuthUser user op abstract quser) dsn table
 
 /-- histories against the database DSN service; the queries are part of a history because they fill the cache -/
 inductive DOp where
